@@ -1,5 +1,17 @@
+use std::collections::VecDeque;
 use tevec::prelude::*;
 fn main() {
-    let s: Vec<f64> = (0..40).map(|i| (i as f64 * 0.05).sin()).collect();
-    println!("half_life = {}", s.half_life(Some(1)));
+    let e: VecDeque<f64> = VecDeque::new();
+    let r: Vec<f64> = e.ts_vmin(3, None);
+    println!("vmin on empty VecDeque: {:?}", r);
+    let r: Vec<f64> = e.ts_vrank(3, None, false, false);
+    println!("vrank on empty VecDeque: {:?}", r);
+    let r: Vec<f64> = e.ts_vsum(3, None);
+    println!("vsum on empty VecDeque: {:?}", r);
+    let v: Vec<f64> = vec![];
+    let r: Vec<f64> = v.ts_vrank(3, None, false, false);
+    println!("vrank on empty Vec: {:?}", r);
+    let d: VecDeque<f64> = vec![3., 1., 2.].into();
+    let r: Vec<f64> = d.ts_vmin(2, None);
+    println!("vmin on deque: {:?}", r);
 }
